@@ -81,14 +81,21 @@ Proof.
   intros Hop Hx. destruct op; try contradiction; go; rewrite Hx; cbn; fin.
 Qed.
 
-Lemma step_binary a op l r :
-  (match op with BUnknown _ => False | _ => True end) ->
+(* BinaryNode, by group of operators (a failure names the group) *)
+Lemma step_binary_short_circuit a op l r :
+  is_short_circuit op = true ->
   rec l = Some (comp l) -> rec r = Some (comp r) ->
   I (EBinary a op l r) = Some (comp (EBinary a op l r)).
 Proof.
-  intros Hop Hl Hr.
-  destruct op; try contradiction; go; rewrite Hl; cbn; rewrite Hr; cbn; try (fin; fail).
-  (* == : the specialised comparisons *)
+  intros Hop Hl Hr. destruct op; try discriminate Hop; go; rewrite Hl; cbn; rewrite Hr; cbn; fin.
+Qed.
+
+Lemma step_binary_equal a l r :
+  rec l = Some (comp l) -> rec r = Some (comp r) ->
+  I (EBinary a BEq l r) = Some (comp (EBinary a BEq l r)).
+Proof.
+  intros Hl Hr. go. rewrite Hl. cbn. rewrite Hr. cbn.
+  (* l == r && l == reflect.Int / reflect.String against both_kind *)
   destruct (rkind_eqb (kind_of l) (kind_of r)) eqn:E.
   - apply rkind_eqb_eq in E. rewrite !(both_kind_same _ _ _ E).
     destruct (rkind_eqb (kind_of l) (RKNum KInt)); cbn; [fin|].
@@ -192,13 +199,188 @@ Lemma step_builtin_len a x :
   rec x = Some (comp x) -> I (EBuiltin a BiLen [x]) = Some (comp (EBuiltin a BiLen [x])).
 Proof. intros Hx. go. rewrite Hx. cbn. fin. Qed.
 
-Lemma step_builtin_loop a b x c :
-  (match b with BiLen | BiUnknown _ => False | _ => True end) ->
-  rec x = Some (comp x) -> rec c = Some (comp c) ->
-  I (EBuiltin a b [x; c]) = Some (comp (EBuiltin a b [x; c])).
+End Step.
+
+(* the builtins with a predicate: emitLoop, emitCond, the break placeholders.  Evaluated with the
+   nested calls answered by a function (the general statement follows by interp_ext). *)
+Ltac norm := repeat (progress (cbn [csize isize app at_ map]; rewrite ?csize_app)).
+Ltac eqgo := lazymatch goal with
+  | |- @eq nat _ _ => solve [reflexivity | norm; lia]
+  | |- _ => first [progress f_equal; eqgo | reflexivity]
+  end.
+Ltac ev := lazy -[Nat.add Nat.sub csize compile compile_list compile_pairs app each Z.of_nat Z.to_nat].
+
+Ltac builtin_tac :=
+  let Hx := fresh "Hx" in let Hc := fresh "Hc" in
+  intros Hx Hc; unfold interp_code, interp;
+  lazymatch goal with |- context [EBuiltin ?a _ _] => destruct a as [la ka] end;
+  ev; rewrite Hx, Hc;
+  cbn [compile app at_ map loc_of ann_of aloc loop_code cond_code]; rewrite <- ?app_assoc; cbn [app]; eqgo.
+
+Section Builtins.
+Variable f : expr -> code.
+Variable mapenv : bool.
+Notation comp := (compile mapenv).
+Notation I := (interp_code schemes (fun y => Some (f y)) mapenv).
+
+Lemma step_builtin_all a x c : f x = comp x -> f c = comp c -> I (EBuiltin a BiAll [x; c]) = Some (comp (EBuiltin a BiAll [x; c])).
+Proof. builtin_tac. Qed.
+Lemma step_builtin_none a x c : f x = comp x -> f c = comp c -> I (EBuiltin a BiNone [x; c]) = Some (comp (EBuiltin a BiNone [x; c])).
+Proof. builtin_tac. Qed.
+Lemma step_builtin_any a x c : f x = comp x -> f c = comp c -> I (EBuiltin a BiAny [x; c]) = Some (comp (EBuiltin a BiAny [x; c])).
+Proof. builtin_tac. Qed.
+Lemma step_builtin_one a x c : f x = comp x -> f c = comp c -> I (EBuiltin a BiOne [x; c]) = Some (comp (EBuiltin a BiOne [x; c])).
+Proof. builtin_tac. Qed.
+Lemma step_builtin_filter a x c : f x = comp x -> f c = comp c -> I (EBuiltin a BiFilter [x; c]) = Some (comp (EBuiltin a BiFilter [x; c])).
+Proof. builtin_tac. Qed.
+Lemma step_builtin_map a x c : f x = comp x -> f c = comp c -> I (EBuiltin a BiMap [x; c]) = Some (comp (EBuiltin a BiMap [x; c])).
+Proof. builtin_tac. Qed.
+Lemma step_builtin_count a x c : f x = comp x -> f c = comp c -> I (EBuiltin a BiCount [x; c]) = Some (comp (EBuiltin a BiCount [x; c])).
+Proof. builtin_tac. Qed.
+End Builtins.
+
+(* the binary operators that are two operands and one or two instructions *)
+Lemma step_binary_plain (f : expr -> code) mapenv a op l r :
+  (match op with BUnknown _ | BEq => False | _ => is_short_circuit op = false end) ->
+  f l = compile mapenv l -> f r = compile mapenv r ->
+  interp_code schemes (fun y => Some (f y)) mapenv (EBinary a op l r) = Some (compile mapenv (EBinary a op l r)).
 Proof.
-  intros Hb Hx Hc.
-  destruct b; try contradiction; go; rewrite Hx; cbn; rewrite Hc; cbn; fin.
+  intros Hop Hl Hr. unfold interp_code, interp. destruct a as [la ka].
+  destruct op; try contradiction; try discriminate Hop; ev; rewrite Hl, Hr;
+    cbn [compile app at_ map loc_of ann_of aloc binop_code]; eqgo.
 Qed.
 
-End Step.
+Lemma step_binary (f : expr -> code) mapenv a op l r :
+  (match op with BUnknown _ => False | _ => True end) ->
+  f l = compile mapenv l -> f r = compile mapenv r ->
+  interp_code schemes (fun y => Some (f y)) mapenv (EBinary a op l r) = Some (compile mapenv (EBinary a op l r)).
+Proof.
+  intros Hop Hl Hr.
+  destruct (is_short_circuit op) eqn:Es.
+  { apply step_binary_short_circuit; [exact Es|rewrite Hl; reflexivity|rewrite Hr; reflexivity]. }
+  destruct op; try contradiction; try discriminate Es.
+  all: lazymatch goal with
+       | |- context [BEq] => apply step_binary_equal; [rewrite Hl; reflexivity|rewrite Hr; reflexivity]
+       | |- _ => apply step_binary_plain; [reflexivity|exact Hl|exact Hr]
+       end.
+Qed.
+
+(* ------------------------------------------------------------------ one unfolding step, every node kind *)
+Lemma some_cn mapenv x : compilable x = true -> Some (compile_node mapenv x) = Some (compile mapenv x).
+Proof. intros H. rewrite (compile_node_compilable mapenv x H). reflexivity. Qed.
+
+Ltac split_andb :=
+  repeat match goal with
+         | H : _ && _ = true |- _ => apply andb_prop in H; destruct H
+         end.
+
+Theorem schemes_step rec mapenv e :
+  node_compilable e = true ->
+  (forall y, In y (children e) -> rec y = Some (compile_node mapenv y)) ->
+  interp_code schemes rec mapenv e = Some (compile_node mapenv e).
+Proof.
+  intros Hc Hrec. unfold interp_code.
+  rewrite (interp_ext _ _ _ _ schemes rec (fun y => Some (compile_node mapenv y)) mapenv e Hrec).
+  clear Hrec rec. fold (interp_code schemes (fun y => Some (compile_node mapenv y)) mapenv).
+  destruct e; cbn [node_compilable compilable] in Hc; unfold compile_node at 2.
+  - apply step_nil.
+  - apply step_ident.
+  - apply step_int.
+  - apply step_float.
+  - apply step_bool.
+  - apply step_str.
+  - apply step_const.
+  - (* unary *) apply step_unary; [destruct op; try exact I; discriminate Hc|apply some_cn; destruct op; try exact Hc; discriminate Hc].
+  - (* binary *)
+    assert (Hlr : compilable e1 = true /\ compilable e2 = true)
+      by (destruct op; try discriminate Hc; apply andb_prop in Hc; exact Hc).
+    destruct Hlr as [H1 H2].
+    apply (step_binary (compile_node mapenv) mapenv); [destruct op; try exact I; discriminate Hc|apply compile_node_compilable; exact H1|apply compile_node_compilable; exact H2].
+  - (* matches *) split_andb. apply step_matches; [apply some_cn; assumption|intros _; apply some_cn; assumption].
+  - (* property *) apply step_property. apply some_cn. exact Hc.
+  - (* index *) split_andb. apply step_index; apply some_cn; assumption.
+  - (* slice *)
+    split_andb. apply step_slice; [apply some_cn; assumption| |].
+    + intros f E. subst. apply some_cn. assumption.
+    + intros t E. subst. apply some_cn. assumption.
+  - (* method *)
+    split_andb. apply step_method; [apply some_cn; assumption|].
+    intros y Hy. apply some_cn. eapply all_compilable; eauto.
+  - (* function *) apply step_function. intros y Hy. apply some_cn. eapply all_compilable; eauto.
+  - (* builtin *)
+    destruct b; destruct args as [|x [|c [|z more]]]; try discriminate Hc; split_andb.
+    + apply step_builtin_len. apply some_cn. assumption.
+    + apply (step_builtin_all (compile_node mapenv) mapenv a x c); apply compile_node_compilable; assumption.
+    + apply (step_builtin_none (compile_node mapenv) mapenv a x c); apply compile_node_compilable; assumption.
+    + apply (step_builtin_any (compile_node mapenv) mapenv a x c); apply compile_node_compilable; assumption.
+    + apply (step_builtin_one (compile_node mapenv) mapenv a x c); apply compile_node_compilable; assumption.
+    + apply (step_builtin_filter (compile_node mapenv) mapenv a x c); apply compile_node_compilable; assumption.
+    + apply (step_builtin_map (compile_node mapenv) mapenv a x c); apply compile_node_compilable; assumption.
+    + apply (step_builtin_count (compile_node mapenv) mapenv a x c); apply compile_node_compilable; assumption.
+  - (* closure *) apply step_closure. apply some_cn. exact Hc.
+  - apply step_pointer.
+  - (* conditional *) split_andb. apply step_cond; apply some_cn; assumption.
+  - (* array *) apply step_array. intros y Hy. apply some_cn. eapply all_compilable; eauto.
+  - (* map *)
+    apply step_map. intros y Hy. split; [reflexivity|].
+    exact (proj2 (all_pairs_compilable _ Hc y Hy)).
+  - (* pair *) split_andb. apply step_pair; apply some_cn; assumption.
+Qed.
+
+(* the statement with the model compiler itself in both places *)
+Corollary schemes_step_compile mapenv e :
+  compilable e = true ->
+  interp_code schemes (fun y => Some (compile_node mapenv y)) mapenv e = Some (compile mapenv e).
+Proof.
+  intros Hc. rewrite <- (compile_node_compilable mapenv e Hc).
+  apply schemes_step; [apply node_compilable_of; exact Hc|reflexivity].
+Qed.
+
+(* ------------------------------------------------------------------ Compile: the tree, then the cast *)
+Theorem schemes_program rec mapenv c e :
+  rec e = Some (compile mapenv e) ->
+  interp_program_code schemes rec mapenv c e = Some (compile_program mapenv c e).
+Proof.
+  intros H. unfold interp_program_code.
+  rewrite (interp_program_ext _ _ _ _ schemes rec (fun y => Some (compile mapenv y)) mapenv c e H).
+  unfold interp_program, compile_program.
+  destruct c; ev; rewrite ?app_nil_r; reflexivity.
+Qed.
+
+(* ------------------------------------------------------------------ by induction on the tree *)
+(* the compiler obtained from the regenerated schemes alone is the model compiler *)
+Theorem gen_compile_is_compile_node : forall d mapenv e,
+  esize e <= d -> node_compilable e = true ->
+  gen_compile schemes d mapenv e = Some (compile_node mapenv e).
+Proof.
+  induction d as [|d IH]; intros mapenv e Hsz Hc.
+  - pose proof (esize_positive e). lia.
+  - cbn [gen_compile]. apply schemes_step; [exact Hc|].
+    intros y Hy. apply IH.
+    + pose proof (children_smaller e y Hy). lia.
+    + eapply children_compilable; eauto.
+Qed.
+
+Theorem gen_compile_is_compile d mapenv e :
+  esize e <= d -> compilable e = true -> gen_compile schemes d mapenv e = Some (compile mapenv e).
+Proof.
+  intros Hsz Hc. rewrite <- (compile_node_compilable mapenv e Hc).
+  apply gen_compile_is_compile_node; [exact Hsz|apply node_compilable_of; exact Hc].
+Qed.
+
+Theorem gen_compile_program_is_compile_program d mapenv c e :
+  esize e <= d -> compilable e = true ->
+  gen_compile_program schemes d mapenv c e = Some (compile_program mapenv c e).
+Proof.
+  intros Hsz Hc. unfold gen_compile_program. apply schemes_program. apply gen_compile_is_compile; assumption.
+Qed.
+
+(* ------------------------------------------------------------------ operator spellings *)
+(* the strings under which the interpreter looks an operator / builtin up in `switch node.Operator` /
+   `switch node.Name` are the spellings the parser model stores (Parse/Parser.v) *)
+Require X.Parse.Parser.
+Lemma names_are_the_parser_spellings :
+  (forall u, unop_name u = X.Parse.Parser.string_of_unop u) /\
+  (forall b, binop_name b = X.Parse.Parser.string_of_binop b) /\
+  (forall b, builtin_name b = X.Parse.Parser.string_of_builtin b).
+Proof. repeat split; intros x; destruct x; reflexivity. Qed.
